@@ -5,7 +5,7 @@ AS(P + `:- &tel{phi}` in initial) and AS(P + `:- not &tel{phi}` in initial) are 
 with multiplicity."""
 import json, os, glob
 import gen, lang, meta, findings
-from props import c04, c05
+from props import c04, c05, c03
 
 PROP_FILE = 'Props/C13.v'
 GROUPS = ['imain', 'theory']
@@ -16,10 +16,13 @@ ASSUMPTIONS = ['gringo/clasp contract G1-G6 (DESIGN.md 5.3)']
 def base_programs(ctx, n):
     rng = ctx.rng('base')
     out = []
+    late = [p for _, p in c03.constraint_programs(ctx, n // 4)] + [p for _, p in c05.constraint_programs(ctx, n // 8)]
     for i in range(n):
         atoms = ['a', 'b'] + (['c'] if rng.random() < 0.4 else [])
         k = rng.random()
-        if k < 0.35:
+        if late and rng.random() < 0.3:
+            p = late.pop()        # look-ahead constraints with theory atoms: atoms that reach the theory after their state was translated
+        elif k < 0.35:
             p = gen.core_program(rng, atoms, (1, 4))
         elif k < 0.55:
             p = gen.core_program(rng, atoms, (1, 4), future_head=0.35, lookahead=0.6)
@@ -41,7 +44,7 @@ def base_programs(ctx, n):
                 f = ('del', ('box', ('star', ('skip',)), f[1]))
         # half of the time the observed formula is RELATED to a formula the base program already mentions (same formula, a
         # sub-formula, the weak/strong or dual sibling, the formula reached late through a past operator)
-        mentioned = [l[1] for r in p for l in r['body'] if l[1][0] in ('tel', 'del')]
+        mentioned = [(l[1] if l[1][0] != 'tels' else ('tel', ('and', l[1][1][0], l[1][1][1]))) for r in p for l in r['body'] if l[1][0] in ('tel', 'del', 'tels')]
         if mentioned and rng.random() < 0.6:
             kind, g = rng.choice(mentioned)
             f = (kind, gen.related(rng, g, kind))
@@ -64,6 +67,8 @@ def variants(p, f, wpart):
 def judge(rs):
     """rs = results of base, observer, positive constraint, negated constraint"""
     b, o, p, n = rs
+    if any(r.get('timeout') for r in rs):
+        return None      # watchdog hit: performance, not a wrong answer
     if any('error' in r for r in rs):
         if all('error' in r for r in rs):
             return None      # the base program itself is rejected (e.g. unsupported placement): nothing to compare
